@@ -456,3 +456,145 @@ fn declared_cases(cases: &mut Vec<Case>) {
     )* } }
     two!((u32, u32); (u8, u64); (u64, u8); (IpAddr, u8); (RotoString, u32); (bool, Val<W4>));
 }
+
+// ------------------------------------------------------------------ the gate, tied
+//
+// The model's gate (`Model/BoundaryGate.gate` over the generated arms of `check_roto_type`)
+// against the real `get_function`, on the signature types the real type checker resolved
+// (hook `Module::verif_c05_signature_types`: scope, identifier, what the name denotes,
+// arguments): for every asked (function, Rust function type) the driver's answer per
+// position (`c05 gate`) must be the real answer, and every resolved type must satisfy the
+// well-formedness the theorems assume of name resolution (`STy.WF`). No script code runs.
+
+fn rty(d: &D) -> String {
+    match d {
+        D::Prim(n) => format!("p {n}"),
+        D::Unit => "u".into(),
+        D::Val(n, _, _) => format!("v {n}"),
+        D::Opt(t) => format!("o {}", rty(t)),
+        D::Res(a, b) => format!("r {} {}", rty(a), rty(b)),
+        D::Ver(a, b) => format!("d {} {}", rty(a), rty(b)),
+        D::List(t) => format!("l {}", rty(t)),
+    }
+}
+
+type SigTypes = Vec<(String, Vec<String>, String)>;
+
+fn gate_compare(drv: &mut Driver, rep: &mut Report, sigs: &SigTypes, src: &str, func: &str, rust_params: &[String], rust_ret: &str, real: bool) {
+    let Some((_, ps, ret)) = sigs.iter().find(|(k, _, _)| k == &format!("pkg.{func}")) else {
+        rep.mismatch("gate tie: the hook does not list a function of the script", json!({"function": func, "script": src}));
+        return;
+    };
+    let mut model = ps.len() == rust_params.len();
+    let mut declared = false;
+    let mut pairs: Vec<(&str, &str)> = rust_params.iter().map(|s| s.as_str()).zip(ps.iter().map(|s| s.as_str())).collect();
+    pairs.push((rust_ret, ret.as_str()));
+    for (r, s) in pairs {
+        let ans = drv.ask(&format!("c05 gate {r} | {s}"));
+        rep.evaluations += 1;
+        let w: Vec<&str> = ans.split(' ').collect();
+        let [_, g, _, wf, _, decl] = w[..] else {
+            rep.mismatch("gate tie: the driver could not read a resolved signature type", json!({"rust": r, "roto": s, "answer": ans, "script": src}));
+            return;
+        };
+        if wf != "true" {
+            rep.mismatch(
+                "a resolved signature type violates what the gate theorems assume of name resolution (STy.WF)",
+                json!({"roto": s, "function": func, "script": src}),
+            );
+        }
+        model &= g == "true";
+        declared |= decl == "true";
+    }
+    if model != real {
+        rep.mismatch(
+            "the model's gate and get_function disagree",
+            json!({"function": func, "rust parameters": rust_params, "rust return": rust_ret, "roto parameters": ps, "roto return": ret, "model": model, "real": real, "script": src}),
+        );
+    }
+    rep.class(format!("gate:{}:{}", if real { "admitted" } else { "refused" }, if declared { "declared" } else { "host-types" }));
+}
+
+macro_rules! gate_ask {
+    ($pkg:ident, $sigs:ident, $drv:ident, $rep:ident, $src:ident, $f:literal, fn($($a:ty),*) -> $r:ty) => {{
+        let real = $pkg.get_function::<fn($($a),*) -> $r>($f).is_ok();
+        let rust_params: Vec<String> = vec![$(rty(&<$a as BT>::desc())),*];
+        let rust_ret = rty(&<$r as BT>::desc());
+        gate_compare($drv, $rep, &$sigs, &$src, $f, &rust_params, &rust_ret, real);
+    }};
+}
+
+fn gate_tie_type<T: BT>(drv: &mut Driver, rep: &mut Report) {
+    let t = T::desc().roto();
+    // the built-in spellings: admitted as written, refused with a component swapped, a
+    // parameter missing, another nesting
+    let src = format!(
+        "fn a(x: {t}?) -> {t}? {{ x }}\nfn b(x: Result[{t}, u8]) -> Verdict[u8, {t}] {{ match x {{ Ok(v) => Verdict.Reject(v), Err(e) => Verdict.Accept(e) }} }}\n\
+         fn c(x: List[{t}?], y: u8) -> List[{t}?] {{ x }}\nfn e(x: {t}) -> {t} {{ x }}\n"
+    );
+    if let Some(mut pkg) = declared_compile(&src) {
+        let sigs = pkg.verif_c05_signature_types();
+        gate_ask!(pkg, sigs, drv, rep, src, "a", fn(Option<T>) -> Option<T>);
+        gate_ask!(pkg, sigs, drv, rep, src, "a", fn(T) -> Option<T>);
+        gate_ask!(pkg, sigs, drv, rep, src, "a", fn(Option<Option<T>>) -> Option<T>);
+        gate_ask!(pkg, sigs, drv, rep, src, "b", fn(Result<T, u8>) -> Verdict<u8, T>);
+        gate_ask!(pkg, sigs, drv, rep, src, "b", fn(Result<u8, T>) -> Verdict<u8, T>);
+        gate_ask!(pkg, sigs, drv, rep, src, "b", fn(Result<T, u8>) -> Verdict<T, u8>);
+        gate_ask!(pkg, sigs, drv, rep, src, "b", fn(Verdict<T, u8>) -> Verdict<u8, T>);
+        gate_ask!(pkg, sigs, drv, rep, src, "c", fn(List<Option<T>>, u8) -> List<Option<T>>);
+        gate_ask!(pkg, sigs, drv, rep, src, "c", fn(List<Option<T>>) -> List<Option<T>>);
+        gate_ask!(pkg, sigs, drv, rep, src, "c", fn(List<T>, u8) -> List<Option<T>>);
+        gate_ask!(pkg, sigs, drv, rep, src, "e", fn(T) -> T);
+        gate_ask!(pkg, sigs, drv, rep, src, "e", fn(T, T) -> T);
+        gate_ask!(pkg, sigs, drv, rep, src, "e", fn(Option<T>) -> T);
+    } else {
+        rep.mismatch("gate tie: a script over built-in types did not compile", json!({"script": src}));
+    }
+    // types the script declares, under built-in names and fresh ones
+    for n in ["Option", "Maybe"] {
+        for (_, decl) in OPTION_SHAPES {
+            let src = format!("{decl}\nfn wrap(x: {t}) -> {n}[{t}] {{ {n}.Some(x) }}\nfn id(v: {n}[{t}]) -> {n}[{t}] {{ v }}\nfn deep(v: List[{n}[{t}]?]) -> {n}[{t}]? {{ v.get(0)? }}\n", decl = decl.replace("{N}", n));
+            let Some(mut pkg) = declared_compile(&src) else { continue };
+            let sigs = pkg.verif_c05_signature_types();
+            gate_ask!(pkg, sigs, drv, rep, src, "wrap", fn(T) -> Option<T>);
+            gate_ask!(pkg, sigs, drv, rep, src, "id", fn(Option<T>) -> Option<T>);
+            gate_ask!(pkg, sigs, drv, rep, src, "deep", fn(List<Option<Option<T>>>) -> Option<Option<T>>);
+        }
+    }
+    for (n, shapes, c1) in [("Result", RESULT_SHAPES, "Ok"), ("Outcome", RESULT_SHAPES, "Ok"), ("Verdict", VERDICT_SHAPES, "Accept"), ("Ruling", VERDICT_SHAPES, "Accept")] {
+        for (_, decl) in shapes {
+            let src = format!("{decl}\nfn first(x: {t}) -> {n}[{t}, u8] {{ {n}.{c1}(x) }}\nfn id(v: {n}[{t}, u8]) -> {n}[{t}, u8] {{ v }}\n", decl = decl.replace("{N}", n));
+            let Some(mut pkg) = declared_compile(&src) else { continue };
+            let sigs = pkg.verif_c05_signature_types();
+            gate_ask!(pkg, sigs, drv, rep, src, "first", fn(T) -> Result<T, u8>);
+            gate_ask!(pkg, sigs, drv, rep, src, "first", fn(T) -> Verdict<T, u8>);
+            gate_ask!(pkg, sigs, drv, rep, src, "id", fn(Result<T, u8>) -> Result<T, u8>);
+            gate_ask!(pkg, sigs, drv, rep, src, "id", fn(Verdict<T, u8>) -> Verdict<T, u8>);
+        }
+    }
+    for n in ["List", "Seq"] {
+        for (_, decl) in LIST_SHAPES {
+            let src = format!("{decl}\nfn id(v: {n}[{t}]) -> {n}[{t}] {{ v }}\n", decl = decl.replace("{N}", n));
+            let Some(mut pkg) = declared_compile(&src) else { continue };
+            let sigs = pkg.verif_c05_signature_types();
+            gate_ask!(pkg, sigs, drv, rep, src, "id", fn(List<T>) -> List<T>);
+            gate_ask!(pkg, sigs, drv, rep, src, "id", fn(Option<T>) -> Option<T>);
+        }
+    }
+    if matches!(T::desc(), D::Prim(_) | D::Val(..)) {
+        for decl in ["record {N} { x: u64 }", "enum {N} { A, B(u64) }"] {
+            let src = format!("{decl}\nfn id(r: {t}) -> {t} {{ r }}\n", decl = decl.replace("{N}", &t));
+            let Some(mut pkg) = declared_compile(&src) else { continue };
+            let sigs = pkg.verif_c05_signature_types();
+            gate_ask!(pkg, sigs, drv, rep, src, "id", fn(T) -> T);
+            gate_ask!(pkg, sigs, drv, rep, src, "id", fn(u64) -> u64);
+        }
+    }
+}
+
+fn gate_tie(rep: &mut Report) {
+    let mut drv = Driver::spawn().expect("spawn rotov-driver");
+    macro_rules! t { ($($t:ty);* $(;)?) => { $( gate_tie_type::<$t>(&mut drv, rep); )* } }
+    t!(u32; u8; i64; bool; f64; char; Asn; IpAddr; Prefix; RotoString; (); Val<Z0>; Val<W4>; Val<X16>; Val<Hs>;
+        Option<u32>; Result<u8, u64>; Verdict<IpAddr, u32>; List<u8>);
+}
